@@ -133,3 +133,29 @@ package keygen
 //@ func (*round3S).StoreMessage
 //@   nopanic[C05]
 //@   requires r != nil && d2sok(r.round2S) && typeis(msg.Content, *message3R) && msg.Content.(*message3R) != nil && msg.Content.(*message3R).OtMsg != nil
+
+// ---- Finalize methods (C05): no panic from the state the start function and the handlers established; each hands the
+// next round the state invariant it relies on.
+//@ pred d0rok(r *round1R) := r != nil && dhok(r.Helper) && r.secretShare != nil && r.publicShare != nil && r.receiver != nil && r.receiver.hash != nil && r.receiver.hash.h != nil && r.receiver.group != nil && (r.refresh ==> r.public != nil)
+//@ func (*round1R).Finalize
+//@   nopanic[C05]
+//@   requires d0rok(r) && out != nil && !closed(out)
+//@   ensures result1 == nil ==> (typeis(result0, *round2R) && d2rok(result0.(*round2R)))
+//@ func (*round1S).Finalize
+//@   nopanic[C05]
+//@   requires d1sok(r) && ot.cssok1(r.sender) && out != nil && !closed(out) && r.otMsg != nil
+//@   ensures result1 == nil ==> (typeis(result0, *round2S) && d2sok(result0.(*round2S)))
+//@ func (*round2R).Finalize
+//@   nopanic[C05]
+//@   requires d2rok(r) && out != nil && !closed(out)
+//@   ensures result1 == nil ==> (typeis(result0, *round3R) && result0.(*round3R).round2R == r)
+//@ func (*round2S).Finalize
+//@   nopanic[C05]
+//@   requires d2sok(r) && out != nil && !closed(out)
+//@   ensures result1 == nil ==> (typeis(result0, *round3S) && result0.(*round3S).round2S == r)
+//@ func (*round3R).Finalize
+//@   nopanic[C05]
+//@   requires r != nil && d2rok(r.round2R) && out != nil && !closed(out)
+//@ func (*round3S).Finalize
+//@   nopanic[C05]
+//@   requires r != nil && d2sok(r.round2S)
